@@ -14,9 +14,18 @@
   plaintext policy. Retransmission (at most once, queued texts once in order, last message once with
   the resent marker) is decided by the Go oracle of the `lifecycle` profile over whole histories plus
   the correspondence of the resend bookkeeping (snapshot field rs=… compared op by op).
+  Repaired code: `endSession_notEncrypted` / `endSession_encrypted_run` (exact): End also wipes the SMP
+  context in every message state and forgets the resend state unless it holds texts still waiting
+  for a session to start (`mayRetransmit = .exact`) — `endSession_forgets`,
+  `endSession_resend_state`: the last text of a session that ended is never resent later.
+  `retransmitAfterCompletedExchange_skip(_run)`: the retransmission step of `processAKE` is
+  `pure []` unless the message completed an exchange (state before ≠ none, after = none, no
+  error); `processAKE_pending_kept`: a rejected AKE message, and every AKE message outside the two
+  finishing combinations, leaves queue, mode and flag of the resend state exactly as they were.
 -/
 
 import Proofs.ConvLife
+import Proofs.Fixes2
 namespace Otr.C18
 open Otr
 
@@ -50,6 +59,9 @@ theorem akeHasFinished_panic_iff (K : Crypto) (s : MState) :
 theorem endSession_notEncrypted (K : Crypto) (s : MState) (h : s.conv.msgState ≠ .encrypted) :
     runM (endSession K) s = .ok (.ok ([], none),
       { s with conv := { s.conv with
+          smp := {}
+          resendMsgs := if s.conv.mayRetransmit = .exact then s.conv.resendMsgs else []
+          mayRetransmit := if s.conv.mayRetransmit = .exact then .exact else .no
           lastMessageStateChange := none, ake := none, msgState := .plainText
           keys := { s.conv.keys with ourCur := none, ourPrev := none,
                                      theirCur := s.conv.keys.theirCur.map (fun _ => 0) } } }) := by
@@ -111,5 +123,61 @@ theorem send_plain (K : Crypto) (m : Bytes) (s : MState)
           wsState := if tagging s.conv then .sent else s.conv.wsState
           injections := [] } }) := by
   first | exact Otr.send_plain | exact @Otr.send_plain | (apply Otr.send_plain <;> assumption) | (intros; apply Otr.send_plain <;> assumption)
+
+/-- repaired code, exact decomposition of End from an encrypted state: SMP wiped, disconnect message attempted, then `endedConv` -/
+theorem endSession_encrypted_run (K : Crypto) (s : MState) (h : s.conv.msgState = .encrypted) :
+    runM (endSession K) s =
+      match runM (createSerializedDataMessage K [] messageFlagIgnoreUnreadable
+          [{ typ := tlvTypeDisconnected, len := 0, value := [] }]) { s with conv := { s.conv with smp := {} } } with
+      | .panic p => .panic p
+      | .ok (v, s2) =>
+        .ok (.ok (match v with
+                  | .ok (ms, _) => (ms, none)
+                  | .error e => ([], some e)),
+          { s2 with conv := endedConv s2.conv, events := s2.events ++ ["sec:0"] }) := by
+  first | exact Otr.endSession_encrypted_run | exact @Otr.endSession_encrypted_run | (apply Otr.endSession_encrypted_run <;> assumption) | (intros; apply Otr.endSession_encrypted_run <;> assumption)
+
+/-- repaired code: after End (any state, any outcome) the SMP context is the zero value and the resend state is empty unless in the `.exact` branch -/
+theorem endSession_forgets (K : Crypto) (s : MState)
+    (r : Except Err (List Bytes × Option Err)) (s' : MState) (hr : runM (endSession K) s = .ok (r, s')) :
+    s'.conv.smp = {} ∧
+    (s'.conv.mayRetransmit = .exact ∨ (s'.conv.mayRetransmit = .no ∧ s'.conv.resendMsgs = [])) := by
+  first | exact Otr.endSession_forgets | exact @Otr.endSession_forgets | (apply Otr.endSession_forgets <;> assumption) | (intros; apply Otr.endSession_forgets <;> assumption)
+
+/-- repaired code: what End does to the resend state, in terms of the state before the call -/
+theorem endSession_resend_state (K : Crypto) (s : MState)
+    (r : Except Err (List Bytes × Option Err)) (s' : MState) (hr : runM (endSession K) s = .ok (r, s')) :
+    (s.conv.mayRetransmit ≠ .exact → s'.conv.resendMsgs = [] ∧ s'.conv.mayRetransmit = .no) ∧
+    (s.conv.msgState = .encrypted → (∃ toSend, r = .ok (toSend, none)) →
+      s'.conv.resendMsgs = [] ∧ s'.conv.mayRetransmit = .no) ∧
+    (s.conv.msgState ≠ .encrypted → s.conv.mayRetransmit = .exact →
+      s'.conv.resendMsgs = s.conv.resendMsgs ∧ s'.conv.mayRetransmit = .exact) := by
+  first | exact Otr.endSession_resend_state | exact @Otr.endSession_resend_state | (apply Otr.endSession_resend_state <;> assumption) | (intros; apply Otr.endSession_resend_state <;> assumption)
+
+/-- repaired code: no retransmission unless the message completed an exchange (the step is `pure []`) -/
+theorem retransmitAfterCompletedExchange_skip (K : Crypto) (before after : AuthState) (e : Option Err)
+    (h : before = .none ∨ after ≠ .none ∨ e ≠ none) :
+    retransmitAfterCompletedExchange K before after e = pure [] := by
+  first | exact Otr.retransmitAfterCompletedExchange_skip | exact @Otr.retransmitAfterCompletedExchange_skip | (apply Otr.retransmitAfterCompletedExchange_skip <;> assumption) | (intros; apply Otr.retransmitAfterCompletedExchange_skip <;> assumption)
+
+/-- the same as a run: result `[]`, state untouched -/
+theorem retransmitAfterCompletedExchange_skip_run (K : Crypto) (before after : AuthState) (e : Option Err)
+    (h : before = .none ∨ after ≠ .none ∨ e ≠ none) (s : MState) :
+    runM (retransmitAfterCompletedExchange K before after e) s = .ok (.ok [], s) := by
+  first | exact Otr.retransmitAfterCompletedExchange_skip_run | exact @Otr.retransmitAfterCompletedExchange_skip_run | (apply Otr.retransmitAfterCompletedExchange_skip_run <;> assumption) | (intros; apply Otr.retransmitAfterCompletedExchange_skip_run <;> assumption)
+
+/-- the completed case is `retransmitOrReveal`: retransmit, else reveal carried MAC keys -/
+theorem retransmitAfterCompletedExchange_completed (K : Crypto) (before : AuthState) (h : before ≠ .none) :
+    retransmitAfterCompletedExchange K before .none none = retransmitOrReveal K := by
+  first | exact Otr.retransmitAfterCompletedExchange_completed | exact @Otr.retransmitAfterCompletedExchange_completed | (apply Otr.retransmitAfterCompletedExchange_completed <;> assumption) | (intros; apply Otr.retransmitAfterCompletedExchange_completed <;> assumption)
+
+/-- repaired code: a rejected AKE message, or one outside the two finishing combinations, consumes nothing of what waits for retransmission -/
+theorem processAKE_pending_kept (K : Crypto) (t : Nat) (msg : Bytes) (s : MState)
+    (r : Except Err (List Bytes × Option Err)) (s' : MState)
+    (h : runM (processAKE K t msg) s = .ok (r, s'))
+    (hc : (∃ msgs e, r = .ok (msgs, some e)) ∨ ¬ finishingCombination t (authStateOf s.conv)) :
+    s'.conv.resendMsgs = s.conv.resendMsgs ∧ s'.conv.mayRetransmit = s.conv.mayRetransmit ∧
+    s'.conv.retransmitting = s.conv.retransmitting := by
+  first | exact Otr.processAKE_pending_kept | exact @Otr.processAKE_pending_kept | (apply Otr.processAKE_pending_kept <;> assumption) | (intros; apply Otr.processAKE_pending_kept <;> assumption)
 
 end Otr.C18
